@@ -138,6 +138,9 @@ def run(ctx):
     if f_name and f_arm:
         somes = ctx.find_aggregates(f_name, r"^core::option::Option$", "Some")
         pcs = [sorted(d) for blk, i, st in somes for d in ctx.pc_strs(f_name, blk)]
+        if not somes:
+            # `cond.then(|| name)` and friends: the Some cases of the case table
+            pcs = [sorted(c) for c, v in resalg.cases(ctx, f_name) if v.startswith("core::option::Option::Some{")]
         T = tpl.Templates(f_arm)
         arm_pcs = []
         for tk in T.events:
@@ -156,7 +159,7 @@ def run(ctx):
         n = 0
         anyc = []
         # the routing of unknown names may be generated in core_loop itself or in a helper it calls
-        for g in [f] + ctx.local_callees(f, depth=1):
+        for g in [f] + ctx.local_callees(f, depth=2):
             T = tpl.Templates(g)
             for tk in T.all_tokens(("ident",)):
                 if tk.text == "__flatten":
@@ -164,7 +167,16 @@ def run(ctx):
                     ctx.requires("C01.G.route-flatten-first", g, tk.blk, "__flatten.push", [r"Iterator(>)?::any\(.*\)=True"])
                 if tk.text in ("unknown_field", "unknown_field_with_alts"):
                     n += 1
-                    ctx.requires("C01.G.route-error-last", g, tk.blk, "unknown-field error", [r"Iterator(>)?::any\(.*\)=False", r"self\.allow_unknown_fields=False"])
+                    group_keys = [x.key for x in ctx.generator_group(f)]
+                    if g.key in group_keys:
+                        ctx.requires("C01.G.route-error-last", g, tk.blk, "unknown-field error", [r"Iterator(>)?::any\(.*\)=False", r"self\.allow_unknown_fields=False"])
+                    else:
+                        # a piece built by a helper shared with other generators: what counts is where
+                        # this generator asks for it
+                        for gg in ctx.generator_group(f):
+                            for b_, t_ in gg.calls():
+                                if mir.callee_of(t_) == g.key:
+                                    ctx.requires("C01.G.route-error-last", gg, b_, "unknown-field error (built by %s)" % g.key.rsplit("::", 1)[-1], [r"Iterator(>)?::any\(.*\)=False", r"self\.allow_unknown_fields=False"])
             # the `any` closure tests the flatten flag
             anyc += [c for c in ctx.closures_of(g) if ctx.true_conditions(c) == [{"a2.flatten=True"}] and any(c.key in ctx.expr(g, t["args"][1]) for _, t in ctx.find_calls(g, r"Iterator(>)?::any$"))]
         ctx.floor("C01.G.route", "routing templates in core_loop", n, 3)
